@@ -7,6 +7,8 @@ import CnbVerif.Props.C06
 #print axioms CnbVerif.C06.target_error
 #print axioms CnbVerif.C06.context_fields
 #print axioms CnbVerif.C06.context_sources
+#print axioms CnbVerif.C06.context_paths_are_supplied_verbatim
+#print axioms CnbVerif.C06.context_paths_are_supplied_verbatim_nothing_else
 #print axioms CnbVerif.C06.unrepresentable_is_error_partial
 #print axioms CnbVerif.C06.variant_silently_dropped
 #print axioms CnbVerif.C06.unrepresentable_is_error_counterexample
